@@ -42,18 +42,18 @@ theorem lice_update (D dt sdt mf k sv temp salt l0 r : α) (xi : Option α) (p :
 section
 open Ladim.Sed
 theorem sed_update_seq (c : Sed.Config α) (e : Sed.Env α) (xi : α) (p : Sed.Particle α) :
-    (Seq.run Seq.sedGuard (Seq.sedStep c e xi) Gen.sed_update_seq (Seq.SedSt.init p)).map Seq.SedSt.particle
+    (Seq.run Seq.sedAtom (Seq.sedStep c e xi) Gen.sed_update_seq (Seq.SedSt.init p)).map Seq.SedSt.particle
       = some (Sed.update c e xi p) := by
-  simp [Gen.sed_update_seq, Seq.run, Seq.sedGuard, Seq.sedStep, Seq.SedSt.init, Seq.SedSt.particle, Sed.update]
+  simp [Gen.sed_update_seq, Seq.run, Seq.sedAtom, Seq.guardVal, Seq.sedStep, Seq.SedSt.init, Seq.SedSt.particle, Sed.update]
 end
 
 section
 open Ladim.Sed
 theorem mine_update_seq (c : Sed.Mine.Config α) (e : Sed.Mine.Env α) (xi : α) (p : Sed.Particle α) :
-    (Seq.run (Seq.mineGuard c) (Seq.mineStep c e xi) Gen.mine_update_seq (Seq.MineSt.init c p)).map (Seq.MineSt.particle c p)
+    (Seq.run (Seq.mineAtom c) (Seq.mineStep c e xi) Gen.mine_update_seq (Seq.MineSt.init c p)).map (Seq.MineSt.particle c p)
       = some (Sed.Mine.update c e xi p) := by
   cases hA : c.hasActive <;>
-  simp [Gen.mine_update_seq, Seq.run, Seq.mineGuard, Seq.mineStep, Seq.MineSt.init, Seq.MineSt.particle, Sed.Mine.update, hA]
+  simp [Gen.mine_update_seq, Seq.run, Seq.mineAtom, Seq.guardVal, Seq.mineStep, Seq.MineSt.init, Seq.MineSt.particle, Sed.Mine.update, hA]
 end
 
 section
@@ -61,12 +61,12 @@ open Ladim.Chemicals
 set_option maxHeartbeats 2000000 in
 theorem chem_update_seq (c : Config α) (e : Env α) (d : Draws α) (p : Particle α) (lc : Seq.LandCollision)
     (hclamp : c.collisionClamp = decide (lc ≠ .other)) (hstuck : lc = .other → d.stuck = false) :
-    Seq.run (Seq.chemGuard c lc) (Seq.chemStep c e d) Gen.chem_update_seq p = some (update c e d p) := by
+    Seq.run (Seq.chemAtom c lc) (Seq.chemStep c e d) Gen.chem_update_seq p = some (update c e d p) := by
   obtain ⟨dt, vertadv, mix, horz, lifespan, fuel, cc⟩ := c
   simp only at hclamp
   subst hclamp
   cases lc <;> cases vertadv <;> cases mix <;> cases horz <;> cases lifespan <;>
-    simp [Gen.chem_update_seq, Seq.run, Seq.chemGuard, Seq.chemStep, update, vertical, horizontal] <;>
+    simp [Gen.chem_update_seq, Seq.run, Seq.chemAtom, Seq.guardVal, Seq.chemStep, update, vertical, horizontal] <;>
     (try (split_ifs <;> simp_all)) <;> (try simp_all)
 end
 
